@@ -35,13 +35,13 @@ namespace Store
 def has (s : Store) (r : Rule) : Bool := (s.index.get (ruleKey r)).isSome
 
 /-- how many rules at the end of the old policy the insertion loop of `AddPolicy` moves up by one:
-    it walks down from the last rule while that rule's priority parses and is greater than `v` -/
+    it walks down from the last rule while that rule's priority is greater than `v` or does not parse -/
 def countMoved (pi : Nat) (v : Int) : List Rule → Nat
   | [] => 0
   | q :: rest =>
       match atoi (q.getD pi "") with
       | some w => if w ≤ v then 0 else 1 + countMoved pi v rest
-      | none => 0
+      | none => 1 + countMoved pi v rest      -- a priority that does not parse sorts after every number
 
 /-- `Model.AddPolicy`.  `prio` = `FieldIndexMap["priority"]` for a `p` assertion that has one
     (`none` for `g` sections and for definitions without a priority token). -/
